@@ -43,12 +43,12 @@ class RefClient:
             dev = self.devices.setdefault(a["device"], {})
             prop = {
                 "kind": k, "name": a["name"], "state": a["state"], "label": a.get("label"), "group": a.get("group"),
-                "elements": {},
+                "attrs": dict(a), "elements": {},
             }
             for c in spec["children"]:
                 # a definition of a BLOB carries no payload
                 val = None if k == "BLOB" else norm(c.get("text"))
-                prop["elements"][c["attrs"]["name"]] = {"label": c["attrs"].get("label"), "value": val}
+                prop["elements"][c["attrs"]["name"]] = {"label": c["attrs"].get("label"), "value": val, "attrs": dict(c["attrs"])}
             dev[a["name"]] = prop
             # events: initial state, initial values (None -> v), then the definition itself
             ev.append(("state", a["device"], a["name"], None, None, a["state"]))
